@@ -140,7 +140,7 @@ def aquariumProblemToUrl (h w : Nat) (blocks : List (List (Int × Int))) (clueRo
   (blocksToBlockId h w blocks).bind fun bid =>
   (encodeGridSegmentation h w bid).bind fun blocksStr =>
   (encodeArray (clueCol ++ clueRow) 103 (.int (-1)) Option.none).bind fun cluesStr =>
-  .ok (puzzLinkPrefix ++ strOfString "aquarium" ++ [47] ++ toBase 10 w ++ [47] ++ toBase 10 h ++ [47] ++ blocksStr ++ cluesStr)
+  .ok (puzzLinkPrefix ++ strOfString "aquarium" ++ [47] ++ toBase 10 w ++ [47] ++ toBase 10 h ++ [47] ++ blocksStr ++ [47] ++ cluesStr)
 
 /-- `star_battle.problem_to_pzv_url(n, k, blocks)` (`blocks` is the n×n grid of block ids) -/
 def starBattleProblemToPzvUrl (n : Nat) (k : Int) (blocks : Grid2 Int) : Outcome Str :=
